@@ -81,7 +81,20 @@ def sweep(u, prop, known, check_case, acyclic_only=False, parser_opts=None,
                 o = parse(p, s, mon)
                 stats["evaluations"] += 1
                 stats["outcomes"][o.kind] = stats["outcomes"].get(o.kind, 0) + 1
-                check_case(ctx, an, s, p, o)
+                try:
+                    check_case(ctx, an, s, p, o)
+                except Exception as e:     # noqa: BLE001
+                    # an exception that escapes from the library while the
+                    # check reads a result it was handed (forest indexing,
+                    # iteration, tree children ...) is a deviation of that
+                    # case, not a harness failure; anything raised by the
+                    # harness's own code stays a harness error
+                    where = impl_frame(e)
+                    if where is None:
+                        raise
+                    ctx.deviation(None, s, "the library raised while its "
+                                  "result was being read",
+                                  {"type": type(e).__name__, "where": where})
         if not samples:
             samples.append({"grammar": gk, "lexmap": u["lexmap"], "ws": u["ws"],
                             "inputs": f"all {len(inputs)} strings over "
@@ -91,6 +104,17 @@ def sweep(u, prop, known, check_case, acyclic_only=False, parser_opts=None,
     r.update(states=len(mon.states), transitions=mon.transitions,
              traces=mon.traces, samples=samples)
     return r
+
+
+def impl_frame(exc):
+    """innermost frame of the traceback that lies in the parglare package
+    ('file:function'), None if the exception never passed through it"""
+    import traceback
+    out = None
+    for fs in traceback.extract_tb(exc.__traceback__):
+        if "/parglare/" in fs.filename.replace("\\", "/"):
+            out = f"{fs.filename.rsplit('/', 1)[-1]}:{fs.name}"
+    return out
 
 
 class Ctx:
